@@ -241,6 +241,16 @@ impl<'a> StateMachine<'a> {
         self.line = ansi::strip_ansi_codes(&self.raw_line);
     }
 
+    /// Verification hook (compiled only with --cfg dandavison_delta_verif): what `ingest_line`
+    /// makes of one input line, as (raw_line, line).
+    #[cfg(dandavison_delta_verif)]
+    pub fn verif_ingest_line(raw_line_bytes: &[u8], config: &'a Config) -> (String, String) {
+        let mut sink = std::io::sink();
+        let mut machine = StateMachine::new(&mut sink, config);
+        machine.ingest_line(raw_line_bytes);
+        (machine.raw_line.clone(), machine.line.clone())
+    }
+
     /// Skip file metadata lines unless a raw diff style has been requested.
     pub fn should_skip_line(&self) -> bool {
         matches!(self.state, State::DiffHeader(_))
